@@ -228,6 +228,37 @@ def unpack_rules(prog, chk, pid):
 
     okf = len(sets) == 2 and all(_is_run(s.d["value"]) for s in sets)
     chk.require(okf, P_("blocks-flushed"), fi.qualname, "blocks[start] = b''.join(cur_block) at every gap and at the end", where, "a contiguous run is stored under its start address when a gap is seen and after the last line", "assembled runs are not stored at both flush points")
+    # after a flush inside the loop the run being assembled starts afresh: the accumulator is rebound to a new object on that path, or emptied in place
+    # (otherwise the next run repeats the bytes of the one just stored: a memory image with a gap gets the first extent twice)
+    if okf:
+        in_loop_ = [x for x in sets if any(f[0] == "loop" and f[1] == lid for f in x.ctx)]
+        okr, whyr = len(in_loop_) == 1, "expected one flush inside the loop"
+        if okr:
+            fl = in_loop_[0]
+            frames_ = [f for f in fl.ctx if f[0] == "if"]
+            v_ = unsnap(fl.d["value"])
+            acc = None
+            if v_.op == "join":
+                acc = unsnap(v_.args[1])
+            else:
+                bc_ = builtin_call(v_)
+                acc = unsnap(bc_[1][0]) if bc_ else None
+                if acc is not None and acc.op == "snap":
+                    acc = unsnap(acc.args[0])
+            okr, whyr = False, "the run accumulator is neither rebound nor emptied after the flush at a gap"
+            if acc is not None and acc.op == "loopvar" and acc.args[0] == lid:
+                nxt_ = unsnap(lr.next.get(acc.args[1])) if lr.next.get(acc.args[1]) is not None else None
+
+                def fresh_arm(t):
+                    t = unsnap(t)
+                    if t.op == "phi":
+                        return fresh_arm(t.args[1]) or fresh_arm(t.args[2])
+                    return t.op == "ref" and t is not unsnap(lr.init.get(acc.args[1])) and t is not acc
+                okr = nxt_ is not None and nxt_.op == "phi" and fresh_arm(nxt_)
+            elif acc is not None and acc.op == "ref" and frames_:
+                okr = any(e.kind == "mutate" and unsnap(e.d["obj"]) is acc and e.d["how"] in ("clear", "delslice", "del") and e.uid > fl.uid and frames_[-1] in e.ctx for e in res.events)
+        chk.require(okr, P_("run-restarts-after-flush"), fi.qualname, "cur_block = [] (or cur_block.clear()) after blocks[start] = <run>", in_loop_[0].where if in_loop_ else where,
+                    "the bytes of a stored run are not carried into the next run", whyr)
     # the gap test itself: flush exactly when this line's address differs from the end of the previous line
     okg, whyg = offs is not None, "line address term not found"
     gap_where = where
